@@ -311,7 +311,14 @@ def ensure_corpus(ctx, profile, cfgs, release=False):
     for cfg in cfgs:
         tag, out = build_corpus(cdir, cfg, release=release)
         if tag is None:
-            # an accepted definition whose generated code does not compile is a C19 matter; here: inconclusive
+            # an accepted definition whose generated code does not compile is a C19 matter; for most properties: inconclusive.
+            # The callbacks corpus is different: every callback in it is well typed for its variant (the corpus compiles on
+            # the tree the framework was validated on), so a compile failure means the derive accepted a pattern with a
+            # callback and emitted code in which that callback cannot run as documented - a C13 finding of its own.
+            if ctx.prop == "C13" and profile == "callbacks":
+                errs = [l for l in out.splitlines() if l.startswith("error") or l.strip().startswith("--> ")][:8]
+                ctx.add_violation({"property": "C13", "level": "R", "rule": "callbacks-corpus-does-not-compile", "config": cfg,
+                                   "detail": f"the derive accepted the definitions of the callbacks corpus but the generated code does not compile in config {cfg}: {errs}", "output_tail": out[-3000:]})
             raise Inconclusive(f"corpus build failed in config {cfg}:\n{out[-2500:]}")
         tags[cfg] = os.path.basename(tag)
         log(f"built corpus {profile} [{cfg}{' release' if release else ''}]")
